@@ -252,8 +252,8 @@ Inductive op :=
 | Close (f:fname)                                           (* close the most recent handle on f: its buffer reaches the file *)
 | CopyIfExists (dst src:fname)                              (* merge_files: shutil.copyfileobj(src, handle of dst) unless src is absent *)
 | Require (f:fname).                                        (* open f for reading and parse it: raises when absent or cut short *)
-Inductive stmt := Do (o:op) | IfAll (g:list fname) (th el:list stmt).
-   (* IfAll g th el: `if args.resume and all files of g exist: th else: el` *)
+Inductive stmt := Do (o:op) | IfAll (g:list fname) (th el:list stmt) | Fresh (l:list stmt).
+   (* IfAll g th el: `if args.resume and all files of g exist: th else: el`;  Fresh l: `if not args.resume: l` *)
 
 Record fstate := mkf { fcontent : content; torn : bool }.
 Definition fsys := list (fname * fstate).
@@ -330,6 +330,12 @@ Fixpoint run_stmt (s:stmt) (x:xs) : xs :=
                      (if resuming x && all_exist (fs x) g then th else el) x
       | _ => x
       end
+  | Fresh l =>
+      match stat x with
+      | Running => if resuming x then x
+                   else (fix go (l:list stmt) (x:xs) : xs := match l with [] => x | a::t => go t (run_stmt a x) end) l x
+      | _ => x
+      end
   end.
 Definition run (p:list stmt) (x:xs) : xs := fold_left (fun x s => run_stmt s x) p x.
 
@@ -385,7 +391,10 @@ Definition program (cf:cfg) : list stmt :=
   [IfAll [RGLock] []
      (ds ([RemoveIfExists RGLock] ++ map (fun r => OpenW (RGPart r)) (rg_parts cf) ++ map (fun r => Put (RGPart r)) (rg_parts cf) ++
           map (fun r => Close (RGPart r)) (rg_parts cf) ++ [Touch RGLock]))] ++
-  (if reuse cf then [] else [IfAll [SaveLock] [] (flat_map (stage1 cf) (chrs cf) ++ ds (resolve_ops cf))]) ++
+  (if reuse cf then []
+   else [IfAll [SaveLock] []
+           (Fresh (ds (RemoveIfExists SaveLock :: map (fun c => RemoveIfExists (Collected c)) (chrs cf) ++ map (fun c => RemoveIfExists (Processed c)) (chrs cf))) ::
+            flat_map (stage1 cf) (chrs cf) ++ ds (resolve_ops cf))]) ++
   [Do (Require Info)] ++
   ds (creation_ops Final (creation cf)) ++
   flat_map (stage2 cf) (chrs cf) ++
@@ -419,6 +428,19 @@ Definition crash_fs (x:xs) : fsys :=
                         | _, _ => s end) (hs x) (fs x).
 Definition resume_run (cf:cfg) (k:nat) (after:bool) : xs :=
   run (program cf) (init true (crash_fs (crash_run cf k after)) None false).
+
+(* ---- a run that starts in a folder holding the leftovers `s0` of an EARLIER run (other options: every left-over content is
+   stale, i.e. not what this run computes); `early` = the stage locks are dropped before .params is rewritten
+   (fixes/C07_fresh_start_drops_stale_locks.diff), so that no kill point of interest sees them *)
+Definition stale (s:fsys) : fsys := map (fun e => (fst e, mkf [Bad] false)) s.
+Definition drop_locks (s:fsys) : fsys := filter (fun e => negb (is_lock (fst e))) s.
+Definition leftovers (cf1:cfg) (k1:nat) (after1:bool) : fsys := stale (crash_fs (crash_run cf1 k1 after1)).
+Definition start_fs (early:bool) (s0:fsys) : fsys := if early then drop_locks s0 else s0.
+Definition run_over (early:bool) (s0:fsys) (cf:cfg) : xs := run (program cf) (init false (start_fs early s0) None false).
+Definition crash_over (early:bool) (s0:fsys) (cf:cfg) (k:nat) (after:bool) : xs :=
+  run (program cf) (init false (start_fs early s0) (Some (if after then k else pred k)) after).
+Definition resume_over (early:bool) (s0:fsys) (cf:cfg) (k:nat) (after:bool) : xs :=
+  run (program cf) (init true (crash_fs (crash_over early s0 cf k after)) None false).
 
 Definition is_final (f:fname) : bool := match f with Final _ => true | _ => false end.
 Definition fstate_eqb (a b:option fstate) : bool :=
